@@ -31,7 +31,7 @@ func VerifC18_ProviderRefusals() {
 	if err != nil {
 		panic(err)
 	}
-	steps := 4 + vfTier()
+	steps := 4
 	for s := 0; s < steps; s++ {
 		vfAdvance(vfSeconds("advance", 1, 3600))
 		now := vfNow()
